@@ -83,6 +83,10 @@ def tlc(specdir, module, cfg=None, workers="auto", timeout=900, simulate=None, d
     cmd += list(extra)
     cmd += ["-config", cfg or (module + ".cfg"), module + ".tla"]
     env = dict(os.environ)
+    # deep recursion (the monitor modules fold recursive operators over long recorded histories) needs more than the default
+    # thread stack: a StackOverflowError is an infrastructure failure, never a verdict
+    if "-Xss" not in env.get("JAVA_TOOL_OPTIONS", ""):
+        env["JAVA_TOOL_OPTIONS"] = (env.get("JAVA_TOOL_OPTIONS", "") + " -Xss512m").strip()
     if deque:
         env["JAVA_TOOL_OPTIONS"] = (env.get("JAVA_TOOL_OPTIONS", "") + " " + STATE_DEQUE).strip()
     out_path = out_file or os.path.join(specdir, "tlc-%d-%d.out" % (os.getpid(), run_no))
